@@ -66,6 +66,109 @@ func ruleEnsure(c *Ctx) {
 		}
 		l.add("R-ENSURE", "v5", key, b.rel(addH.Pos()), v, why, true)
 	}
+	// (v) under the option the walk runs for every add: the call is controlled by nothing but the
+	// option itself, the empty-path special case and the decode of the path (a memo of parents
+	// "already ensured" goes stale as soon as another operation removes one of them)
+	{
+		key := "(v) with the option set, ensurePathExists runs for every add that has a path"
+		bad := ""
+		n := 0
+		for _, cs := range callsTo(addH, func(cc *ssa.CallCommon) bool { return cc.StaticCallee() == ep }) {
+			n++
+			for _, e := range b.controlDepsTransitive(cs.Block()) {
+				iff, ok := e.From.Instrs[len(e.From.Instrs)-1].(*ssa.If)
+				if !ok {
+					continue
+				}
+				okCond := false
+				var visit func(v ssa.Value, d int) bool
+				visit = func(v ssa.Value, d int) bool {
+					if d > 5 || v == nil {
+						return false
+					}
+					switch x := v.(type) {
+					case *ssa.UnOp:
+						if x.Op == token.NOT {
+							return visit(x.X, d+1)
+						}
+						if _, fr, ok := fieldLoad(x); ok && fr.Field == field {
+							return true
+						}
+					case *ssa.BinOp:
+						// path == "" ; err != nil
+						if s0, ok := strConst(x.Y); ok && s0 == "" {
+							return true
+						}
+						if isNilConst(x.Y) && isErrorType(x.X.Type()) {
+							return true
+						}
+					case *ssa.Phi:
+						all := true
+						for _, ed := range x.Edges {
+							if _, isC := ed.(*ssa.Const); isC {
+								continue
+							}
+							if !visit(ed, d+1) {
+								all = false
+							}
+						}
+						return all
+					}
+					return false
+				}
+				okCond = visit(iff.Cond, 0)
+				if !okCond {
+					bad = "the call at " + b.posOf(cs) + " also depends on the condition at " + b.posOf(iff) + " (" + describeCond(iff.Cond) + "): an add can skip the creation of its parents although the option is set"
+				}
+			}
+		}
+		if n == 0 {
+			bad = "the add handler never calls ensurePathExists"
+		}
+		v, why := Discharged, "the call is controlled only by the option, the empty-path case and the path decode"
+		if bad != "" {
+			v, why = Violated, bad
+		}
+		l.add("R-ENSURE", "v5", key, b.rel(addH.Pos()), v, why, true)
+	}
+	// (vi) the classification of the next token parses the token as it is: "-" selects an array
+	// without becoming a number (as "-1" it would be subject to the negative-index switch)
+	{
+		key := "(vi) the next token is classified as given: \"-\" means array without being parsed as a number"
+		bad := ""
+		n := 0
+		allInstrs(ep, func(i ssa.Instruction) {
+			call, ok := i.(*ssa.Call)
+			if !ok {
+				return
+			}
+			f := call.Call.StaticCallee()
+			if f == nil || stdName(f) != "strconv.Atoi" {
+				return
+			}
+			n++
+			arg := call.Call.Args[0]
+			okArg := false
+			if u, isU := arg.(*ssa.UnOp); isU {
+				if _, isIA := u.X.(*ssa.IndexAddr); isIA {
+					okArg = true
+				}
+			}
+			if ex, isEx := arg.(*ssa.Extract); isEx {
+				if _, isNext := ex.Tuple.(*ssa.Next); isNext {
+					okArg = true
+				}
+			}
+			if !okArg {
+				bad = "the text parsed as an index at " + b.posOf(call) + " is " + describeValue(arg) + ", not a reference token of the path itself: a rewritten token (\"-\" as \"-1\") falls under the negative-index switch, and the array for an appending add is no longer created when that switch is off"
+			}
+		})
+		v, why := Discharged, fmt.Sprintf("%d index parse(s), each of an element of the split path", n)
+		if bad != "" {
+			v, why = Violated, bad
+		}
+		l.add("R-ENSURE", "v5", key, b.rel(ep.Pos()), v, why, true)
+	}
 	// (ii) creation only when the lookup failed
 	{
 		key := "(ii) containers and padding are created only when the lookup of that token failed"
